@@ -105,4 +105,32 @@ def acceptWire (dt : DType F) (j : JVal F) (prev : Option (PVal F)) : Res F :=
   | .error e => .error e
   | .ok v => validate dt v prev
 
+/-- what a `change` request does with its data for a plain parameter (no `write_` method, no check function):
+`_setParameterValue` (dispatcher.py:171-176) imports the value and validates it against the value held, the
+write wrapper (modulebase.py:185-203) validates the result once more, without `previous`; the outcome is stored
+(`announceUpdate(..., validate=False)`) and reported -/
+def changeValue (dt : DType F) (j : JVal F) (held : PVal F) : Res F :=
+  match acceptWire dt j (some held) with
+  | .error e => .error e
+  | .ok r => validate dt r none
+
+/-- what can happen to the value a parameter holds: a driver update (`announceUpdate(pname, value)`, which converts
+with `datatype(value)` and keeps the old value when that raises, modulebase.py:556-565) or a `change` request -/
+inductive ParamEvent (F : Type) where
+  | update (v : PVal F)
+  | change (j : JVal F)
+
+def holdStep (dt : DType F) (held : PVal F) : ParamEvent F → PVal F
+  | .update v =>
+    match call dt v with
+    | .ok r => r
+    | .error _ => held
+  | .change j =>
+    match changeValue dt j held with
+    | .ok r => r
+    | .error _ => held
+
+/-- the value held after a history of updates and change requests -/
+def holdRun (dt : DType F) (held : PVal F) (evs : List (ParamEvent F)) : PVal F := evs.foldl (holdStep dt) held
+
 end Frappy.Datatypes
